@@ -200,7 +200,7 @@ def c08d(ctx, tu):
                detail="" if bad is None else bad[0],
                witness=None if bad is None or bad[1] is None else {"path": fmt_trace(bad[1])})
     # match_conditions: false on the failing edge, true after the loop
-    for fn in tu.need(A["match_conditions"], 3):
+    for fn in tu.find(A["match_conditions"]):
         from rules.common import LoopModel, iter_calls, loop_of, Oracle
         from engine.table import Unknown
         try:
@@ -228,20 +228,64 @@ def c08d(ctx, tu):
         except Unknown as u:
             ctx.ob("C08.d", A["match_conditions"] + " result", None, pattern=fn.pat, unit=tu.name, inst=fn.q,
                    detail="cannot interpret: %s" % u)
-    # matches == match_parameters && match_conditions (C01.d)
+    # matches == match_parameters && match_conditions (C01.d) - as one expression, or with the WITH loop written out
+    # in matches() itself after a parameter guard
     for fn in tu.need(A["matches"], 3):
-        rets = [e.get("x") for b, e in fn.events() if e["e"] == "return"]
-        ok = len(rets) == 1 and isinstance(rets[0], list) and rets[0][:2] == ["b", "&&"] and \
-            lib.tree_name(rets[0][2]) == "trompeloeil::match_parameters" and \
-            lib.tree_name(rets[0][3]) == A["match_conditions"]
-        if ok:
-            # (expected values of THIS expectation, actual parameters of the call) / (actual parameters)
-            mp, mc = rets[0][2], rets[0][3]
-            a = mp[3]
-            ok = len(a) == 2 and a[0][:1] == ["member"] and erase(a[0][1]) == "trompeloeil::call_matcher::val" and \
-                a[0][2] == ["this"] and a[1][:2] == ["param", 0] and mc[4] and mc[4][0][:2] == ["param", 0] and mc[3] == ["this"]
-        ctx.ob("C01.d", A["matches"], ok, pattern=fn.pat, unit=tu.name, inst=fn.q,
-               detail="" if ok else "matches() must be: all parameters match AND all WITH conditions hold")
+        from rules.common import LoopModel, iter_calls, loop_of, Oracle
+        from engine.table import Unknown, Interp
+        MP = "trompeloeil::match_parameters"
+        try:
+            why = None
+            l = loop_of(fn, A["condition_check"]) if cfg.loops(fn) else None
+            if l is None:
+                # single expression: decided by its truth table over the two callees
+                for pm in (True, False):
+                    for mc in (True, False):
+                        seen = []
+                        def mcf(t, it, mc=mc, seen=seen):
+                            seen.append(1)
+                            return mc
+                        o = Oracle(calls={MP: pm, A["match_conditions"]: mcf}, params={0: ("obj", "params")}, any_member=True)
+                        r = Interp(fn, o).run()
+                        if r != ("return", pm and mc) and why is None:
+                            why = "parameters %s, conditions %s -> %s" % (pm, mc, r)
+                        if not pm and seen and why is None:
+                            why = "WITH conditions are evaluated although a parameter already rejected the call"
+                calls = [e for b, e in fn.events() if e["e"] == "call" and qe(e) in (MP, A["match_conditions"])]
+                if why is None and len(calls) != 2:
+                    why = "matches() must consult the parameter matchers and the WITH conditions"
+            else:
+                lm = LoopModel(fn, l)
+                # parameters reject: false, before any condition is looked at
+                o = Oracle(calls=iter_calls("elem", {MP: False, A["condition_check"]: True}), params={0: ("obj", "params")},
+                           any_member=True)
+                r = Interp(fn, o).run(stop_blocks={lm.entry})
+                if r != ("return", False):
+                    why = "a call whose parameters do not match must be rejected before the WITH conditions are evaluated"
+                for holds in (True, False):
+                    o = Oracle(calls=iter_calls("elem", {MP: True, A["condition_check"]: holds}), params={0: ("obj", "params")},
+                               any_member=True)
+                    res, it = lm.step(o, at="elem")
+                    want = ("stop", lm.entry) if holds else ("return", False)
+                    if res != want and why is None:
+                        why = "a WITH condition that %s: expected %s, code does %s" % (
+                            "holds" if holds else "fails", "go on" if holds else "return false", res)
+                o = Oracle(calls=iter_calls("end", {MP: True, A["condition_check"]: False}), params={0: ("obj", "params")},
+                           any_member=True)
+                res, it = lm.step(o, at="end")
+                if res != ("return", True) and why is None:
+                    why = "with matching parameters and no failing condition the result must be true, code does %s" % (res,)
+            # the parameter matchers get THIS expectation's expected values and the call's actual parameters
+            mps = [e for b, e in fn.events() if e["e"] == "call" and qe(e) == MP]
+            if why is None:
+                a = mps[0]["args"] if mps else []
+                if not (len(a) == 2 and a[0][:1] == ["member"] and erase(a[0][1]) == "trompeloeil::call_matcher::val" and
+                        a[0][2] == ["this"] and a[1][:2] == ["param", 0]):
+                    why = "the parameter matchers must be given this expectation's values and the call's parameters"
+            ctx.ob("C01.d", A["matches"], why is None, pattern=fn.pat, unit=tu.name, inst=fn.q,
+                   detail="" if why is None else "matches() must be: all parameters match AND all WITH conditions hold: " + why)
+        except Unknown as u:
+            ctx.ob("C01.d", A["matches"], None, pattern=fn.pat, unit=tu.name, inst=fn.q, detail="cannot interpret: %s" % u)
     return n
 
 
